@@ -253,7 +253,7 @@ def main(tier, seed):
     cz = []
     for (n, m_) in ([(1, 1), (2, 3), (3, 2), (4, 4), (5, 8), (7, 5), (8, 8), (9, 16), (16, 9)] if q else [(a, b) for a in (1, 2, 3, 4, 5, 7, 8, 12, 16, 17, 31, 32) for b in (1, 2, 5, 8, 16, 33)]):
         for i, t in enumerate(th if not q else th[:2]):
-            for a in ([(1.0, 0.0), (0.9 * math.cos(0.4), 0.9 * math.sin(0.4))] if q else [(1.0, 0.0), (0.5, 0.0), (0.0, 2.0), (1.3 * math.cos(2.0), 1.3 * math.sin(2.0))]):
+            for a in ([(1.0, 0.0), (0.9 * math.cos(0.4), 0.9 * math.sin(0.4)), (math.cos(0.7), math.sin(0.7))] if q else [(1.0, 0.0), (0.5, 0.0), (0.0, 2.0), (1.3 * math.cos(2.0), 1.3 * math.sin(2.0)), (math.cos(0.7), math.sin(0.7)), (-1.0, 0.0), (0.0, 1.0)]):      # incl. starting points ON the unit circle other than 1
                 cz.append((n, m_, (math.cos(t), -math.sin(t)), a))
     for k, (n, m_, w, a) in enumerate(cz):
         jobs.append((f'czt n={n} m={m_} #{k}', 'czt', dict(fn='h_czt' if k % 2 == 0 else 'h_cztplan', n=n, m_=m_, w=w, a=a), 1500))
